@@ -779,6 +779,12 @@ class World:
             kw = {'path': Path(self.files[f])}
             if op.get('strpath'):
                 kw['path'] = self.files[f]
+            elif op.get('direntry'):
+                # an os.DirEntry as handed out by os.scandir(): an os.PathLike that is neither str nor Path
+                node = self.fs.h_node(self.files[f])
+                if node is not None and not node.is_dir:
+                    from .simfs import _DirEntry
+                    kw['path'] = _DirEntry(self.fs, os.path.dirname(self.files[f]), os.path.basename(self.files[f]), node)
             if 'code' in op:
                 kw['code'] = op['code'].encode('utf-8', 'surrogatepass') if op.get('as_bytes') else op['code']
             elif op.get('givecode') and proc.ctx.start is not None and proc.ctx.start[0] is not None:
